@@ -25,6 +25,10 @@ def run(ctx, L, tier):
     M.stiffness(ctx, L)
     from . import c20
     c20.shared_state(ctx, L)        # no state that survives from one compiled file / call to the next (module, class, closure, default argument)
+    from . import shared_gen as _G
+    _G.generators_read_only(ctx, L)
+    from . import shared_raw as _R
+    _R.hpp_struct(ctx, L)              # what is accepted must compile: one padder per struct (unique padding member names)
     return sorted(set(o.rule for o in L.obligations))
 
 
